@@ -1,5 +1,5 @@
 import Gen.id_npwp
-import Props.C17f
+import Props.C17c
 import Props.C11data.id_loc_link
 /-!
 # C17, continued — `id.npwp` (Luhn over a prefix of the number); see the table in `Props/C17f.lean`
